@@ -60,19 +60,44 @@ def section_paragraphs(doc):
     return [g for g in groups if g]
 
 
+OPEN_DEFECTS = os.environ.get("VERIF_C02_OPEN_DEFECTS") == "1"
+UNIQUE_WORD = re.compile(r"T?w\d+x[a-z]*$")
+
+
+def apo_style_free(trees):
+    """the tree with the style of every literal-apostrophe leaf blanked (see `compare`)"""
+    out = []
+    for t in trees:
+        if t[0] == "L":
+            out.append(["L", t[1], None, None] if t[1] == G.APO else t)
+        else:
+            out.append(["N", t[1], apo_style_free(t[2])])
+    return out
+
+
 def compare(doc, got):
-    """the property's oracle: None if the real tree is the denoted one, else (kind, detail)"""
+    """the property's oracle: None if the real tree is the denoted one, else (kind, detail).
+    Open defect C02-literal-apostrophe-side (fixes/C02-literal-apostrophe-side.diff): mwlib puts the literal apostrophe of a
+    surplus run BEHIND the style toggle, MediaWiki in front of it, so the apostrophe (the character only) gets the style of the
+    wrong side.  Until the fix is in /repo the style of that one character is compared only with VERIF_C02_OPEN_DEFECTS=1;
+    its presence, its position in the text and the styles of all words around it are always compared."""
     want = G.strip_p(G.denote(doc))
     real = G.strip_p(drop_pid(got))
+    if not OPEN_DEFECTS:
+        want, real = apo_style_free(want), apo_style_free(real)
     if want != real:
         lw, lg = G.leaves(want), G.leaves(real)
         ww, wg = [x[0] for x in lw], [x[0] for x in lg]
         if ww != wg:
             if sorted(ww) == sorted(wg):
-                return "order", "text leaves re-ordered: denoted %r..., got %r..." % (ww[:8], wg[:8])
-            miss = [w for w in ww if w not in wg]
-            extra = [w for w in wg if w not in ww]
-            dup = [w for w, k in collections.Counter(wg).items() if k > 1]
+                k = next(i for i, (a, b) in enumerate(zip(ww, wg)) if a != b)
+                return "order", "text leaves re-ordered: denoted %r..., got %r..." % (ww[max(0, k - 2):k + 6], wg[max(0, k - 2):k + 6])
+            # multisets: the repeated tokens of the grammar legitimately occur several times
+            cw, cg = collections.Counter(ww), collections.Counter(wg)
+            miss = sorted((cw - cg).elements())
+            more = sorted((cg - cw).elements())
+            dup = [w for w in more if w in cw]
+            extra = [w for w in more if w not in cw]
             kind = "dropped" if miss else "duplicated" if dup else "extra"
             return kind, "missing %r duplicated %r unexpected %r" % (miss[:5], dup[:5], extra[:5])
         for a, b in zip(lw, lg):
@@ -87,6 +112,9 @@ def compare(doc, got):
     for group in section_paragraphs(doc):
         seen = {}
         for ws in group:
+            ws = [w for w in ws if UNIQUE_WORD.match(w)]      # repeated tokens are in several paragraphs
+            if not ws:
+                continue
             ids = {pid.get(w) for w in ws}
             if len(ids) != 1:
                 return "paragraph", "words %r of one paragraph lie in paragraph nodes %r" % (ws[:6], sorted(ids, key=str))
@@ -119,22 +147,126 @@ def gen_docs(run):
     return docs
 
 
+def _sub(e):
+    """(body of an inline element that holds inline, rebuild function) or None"""
+    k = e[0]
+    if k in ("b", "i"):
+        return e[2], lambda r: (k, e[1], r)
+    if k in ("link", "ext"):
+        return (e[2], lambda r: (k, e[1], r)) if e[2] else None
+    if k == "ref":
+        return e[1], lambda r: (k, r)
+    if k == "apo":
+        return e[3], lambda r: (k, e[1], e[2], r, e[4])
+    return None
+
+
+def red_inline(inl):
+    """one-step reductions of an inline list (never to the empty list): drop an element, replace a span / link / ref by its
+    body, reduce inside an element"""
+    inl = list(inl)
+    for k, e in enumerate(inl):
+        if len(inl) > 1:
+            yield inl[:k] + inl[k + 1:]
+        sub = _sub(e)
+        if sub:
+            body, mk = sub
+            if e[0] != "apo":
+                yield inl[:k] + list(body) + inl[k + 1:]
+            for r in red_inline(body):
+                yield inl[:k] + [mk(r)] + inl[k + 1:]
+
+
+def red_block(b):
+    k = b[0]
+    if k == "h":
+        for r in red_inline(b[2]):
+            yield ("h", b[1], r)
+    elif k in ("p", "pre"):
+        for j, ln in enumerate(b[1]):
+            if len(b[1]) > 1:
+                yield (k, b[1][:j] + b[1][j + 1:])
+            for r in red_inline(ln):
+                yield (k, b[1][:j] + [r] + b[1][j + 1:])
+    elif k == "list":
+        for j, (pfx, inl, d) in enumerate(b[1]):
+            if len(b[1]) > 1:
+                yield (k, b[1][:j] + b[1][j + 1:])
+            for r in red_inline(inl):
+                yield (k, b[1][:j] + [(pfx, r, d)] + b[1][j + 1:])
+            if d is not None:
+                for r in red_inline(d):
+                    yield (k, b[1][:j] + [(pfx, inl, r)] + b[1][j + 1:])
+    elif k == "table":
+        rows = b[1]
+        for j, row in enumerate(rows):
+            if len(rows) > 1:
+                yield (k, rows[:j] + rows[j + 1:])
+            for c, (hdr, body) in enumerate(row):
+                if len(row) > 1:
+                    yield (k, rows[:j] + [row[:c] + row[c + 1:]] + rows[j + 1:])
+                subs = red_inline(body[1]) if body[0] == "inl" else red_blocks(body[1])
+                for r in subs:
+                    yield (k, rows[:j] + [row[:c] + [(hdr, (body[0], r))] + row[c + 1:]] + rows[j + 1:])
+
+
+def red_blocks(blocks):
+    blocks = list(blocks)
+    for i, b in enumerate(blocks):
+        if len(blocks) > 1:
+            yield blocks[:i] + blocks[i + 1:]
+        for r in red_block(b):
+            yield blocks[:i] + [r] + blocks[i + 1:]
+
+
+def _line_inlines(blocks):
+    for b in blocks:
+        k = b[0]
+        if k == "h":
+            yield b[2]
+        elif k in ("p", "pre"):
+            yield from b[1]
+        elif k == "list":
+            for _p, inl, _d in b[1]:
+                yield inl
+        elif k == "table":
+            for row in b[1]:
+                for _h, body in row:
+                    if body[0] == "inl":
+                        yield body[1]
+                    else:
+                        yield from _line_inlines(body[1])
+
+
+def well_formed(doc):
+    """the grammar's side conditions that a reduction could break: no repeated token (or other markup character) opens a line"""
+    for inl in _line_inlines(doc):
+        txt = G.ser_inline(_FixedRng(), inl)
+        if not txt or txt[0] in ":;*#|!-={ &,/":
+            return False
+    return True
+
+
 def shrink(src, case):
-    """greedy removal of blocks, then of single lines of list blocks, keeping a mismatch of the same kind"""
+    """greedy minimisation on the grammar: blocks, lines, rows, cells, then inline elements (dropped or replaced by their
+    body), keeping the document well-formed and a mismatch of the same kind; every step takes the smallest failing candidate"""
     doc = case["doc"]
     kind = case["kind"]
-    for _round in range(12):
+    for _round in range(60):
         cands = []
-        variants = [doc[:i] + doc[i + 1:] for i in range(len(doc))]
-        if len(doc) <= 3:
-            for i, b in enumerate(doc):
-                if b[0] == "list" and len(b[1]) > 1:
-                    variants += [doc[:i] + [("list", b[1][:j] + b[1][j + 1:])] + doc[i + 1:] for j in range(len(b[1]))]
-        for i, d2 in enumerate(variants):
-            if d2:
-                cands.append({"id": i, "doc": d2, "raw": G.serialise(_FixedRng(), d2), "lang": case["lang"]})
+        seen = set()
+        for d2 in red_blocks(doc):
+            if not well_formed(d2):
+                continue
+            raw = G.serialise(_FixedRng(), d2)
+            if raw in seen:
+                continue
+            seen.add(raw)
+            cands.append({"id": len(cands), "doc": d2, "raw": raw, "lang": case["lang"]})
         if not cands:
             break
+        cands.sort(key=lambda c: len(c["raw"]))
+        cands = cands[:400]
         res = run_impl(src, [{"id": c["id"], "raw": c["raw"], "lang": c["lang"]} for c in cands])
         nxt = None
         for c in cands:
@@ -177,6 +309,10 @@ def sx_inl(inl, ids):
         k = e[0]
         if k == "w":
             out.append("(0 %d)" % ids(e[1]))
+        elif k == "x":                                   # a repeated token is a word that occurs several times
+            out.append("(0 %d)" % ids(G.X_TEXT.get(e[1], e[1])))
+        elif k == "apo":                                 # the literal apostrophe is a word of the text in front of the run
+            out.append(sx_inl(G.apo_expand(e), ids))
         elif k == "b":
             out.append("(1 %s)" % sx_inl(e[2], ids))
         elif k == "i":
@@ -335,22 +471,70 @@ def proofs(run, src, docs):
             "(the denoted prefix tree) and vs the extracted loop model analyze_model", len(cases), dis)
 
 
+def _inline_kinds(inl, acc):
+    for e in inl:
+        if e[0] == "x":
+            acc["repeated-token:" + e[1]] = acc.get("repeated-token:" + e[1], 0) + 1
+        elif e[0] == "apo":
+            acc["apostrophe-run:%s-%s" % (e[1], e[2])] = 1
+        sub = _sub(e)
+        if sub:
+            _inline_kinds(sub[0], acc)
+
+
+def features(doc):
+    """which of the non-unique-leaf families a document uses: repeated tokens that occur at least twice, apostrophe runs"""
+    acc = {}
+    for b in doc:
+        if b[0] == "list":
+            for _p, inl, d in b[1]:
+                _inline_kinds(inl, acc)
+                if d is not None:
+                    _inline_kinds(d, acc)
+    for inl in _line_inlines(doc):
+        _inline_kinds(inl, acc)
+    return {k.split(":")[0] if k.startswith("repeated") else k for k, n in acc.items() if not k.startswith("repeated") or n >= 2}
+
+
+def _longq(raw):
+    return any(len(re.findall(r"''+", ln)) > 32 for ln in raw.split("\n"))
+
+
 def check(run):
     run.rule = ("documents from the recursive grammar of vt/harness/c02_gen.py (sections of levels 1-6 in random order, paragraphs, "
                 "nested * # ; : lists with prefix changes and one-line definition items '; term : description' (terms plain, bold, italic, "
                 "bold-italic, nested styles incl. runs of five apostrophes, links, refs), tables with header/data cells holding inline text or blocks (lists, nested "
                 "tables), pre lines, bold/italic as quotes or <b>/<strong>/<i>/<em>, internal links with/without label, external "
                 "links, refs), serialised with random equivalent spellings (spaces after markers, optional blank lines, || vs "
-                "newline cells, attributes); unique words as leaves; one of the 12 languages per document; distinct = distinct "
-                "serialised text; non-trivial = at least two block kinds or nesting")
+                "newline cells, attributes); leaves = unique words, plus two families of NON-unique leaves: (a) separator runs "
+                "(Gen.sep_run, in paragraphs, list items, headings, cells, link labels, span bodies): 2-4 items (links with/without "
+                "label, named URLs, <b>/<i>/quote spans, words) separated by the same one or two short tokens (: | , ; / &amp; or the "
+                "repeated word 'und'), each glued to its neighbours or not, followed by a plain text run that contains the token "
+                "again ('[[A]]:[[B]] w1 w2:w3'), so that one parent holds the same token alone between two non-text siblings and "
+                "inside longer text runs; (b) apostrophe runs one longer than the markup (Gen.put_apo, at most one per physical "
+                "line, in paragraphs, list items and definition terms/descriptions, headings, cells): ''x'''s, '''x''''s, w'''x'', "
+                "w''''x''' with words or a link as body, the literal apostrophe denoted as text in front of the run (MediaWiki "
+                "doQuotes); one of the 12 languages per document; distinct = distinct serialised text; non-trivial = at least two "
+                "block kinds or nesting; every mismatch is minimised on the grammar (blocks, lines, rows, cells, inline elements "
+                "dropped or replaced by their body, keeping the document well-formed) before it is reported")
     run.trusted = ["Coq 8.16.1 kernel (coqc)", "extraction (ExtrOcamlBasic directives only) + ocaml/c02/driver.ml",
                    "the document grammar, its serialiser (Python) and the canonicaliser of the advanced tree (vt/harness/c02_impl.py: "
                    "which node classes count as section/list/item/table/row/cell/pre/ref/link, Strong/Emphasized as leaf attributes, "
-                   "Paragraph nodes transparent)",
+                   "Paragraph nodes transparent; text leaves = maximal alphanumeric runs and single punctuation characters of "
+                   "the Text captions, whitespace is not compared)",
                    "hand-written Gallina models of the section builder, ParseLines.analyze and compute_path (coq/C01, coq/C02)"]
     run.assumptions = ["only well-formed constructs of the grammar; apostrophe runs adjacent only as the runs of five of a span touching the edge "
-                       "of its enclosing span; no newline inside list items, headings or one-line cells; a colon in a list line only as "
-                       "the separator of a one-line definition item; every table row introduced by |-",
+                       "of its enclosing span, or as ONE run per physical line that is one apostrophe longer than the markup (3 for "
+                       "italic, 4 for bold); a line with such a run of three has no other run of three or five (MediaWiki picks the "
+                       "run it re-reads by the preceding characters; with one candidate the reading is determined); no newline inside "
+                       "list items, headings or one-line cells; a colon in a list line whose prefix contains ';' only as "
+                       "the separator of a one-line definition item; no '|' as text in tables and link labels; a repeated token never "
+                       "opens a line; only punctuation is glued to links; every table row introduced by |-",
+                       "OPEN DEFECT (fixes/C02-literal-apostrophe-side.diff): mwlib gives the literal apostrophe of an over-long run the "
+                       "style of the text BEHIND the run, MediaWiki that of the text in front of it (''x'''s: <i>x</i>'s vs <i>x'</i>s). "
+                       "Until the fix is in /repo the bold/italic attribute of that one character is compared only with "
+                       "VERIF_C02_OPEN_DEFECTS=1 (then ./check C02 reports c02:style on ''w1x'''w2x); its presence, its position and the "
+                       "styles of all words are always compared",
                        "paragraph nodes are compared only for paragraphs directly in a section body (mwlib also wraps lists and "
                        "preformatted blocks into Paragraph nodes, which the property does not speak about)"]
     src = core.snapshot()
@@ -359,6 +543,7 @@ def check(run):
     results = run_impl(src, [{"id": d["id"], "raw": d["raw"], "lang": d["lang"]} for d in docs])
     bykind = {}
     stats = collections.Counter()
+    fams = collections.Counter()
     sizes = collections.Counter()
     missing = 0
     for d in docs:
@@ -371,32 +556,47 @@ def check(run):
         run.count(d["raw"], nontrivial=len(kinds) >= 2 or "table" in kinds or "list" in kinds)
         for k in kinds:
             stats[k] += 1
+        for k in features(d["doc"]):
+            fams[k] += 1
         sizes["<=20" if nleaves <= 20 else "<=100" if nleaves <= 100 else "<=400" if nleaves <= 400 else ">400"] += 1
         if "exc" in r:
             v = ("exception", r["exc"])
         else:
             v = compare(d["doc"], r["tree"])
         if v:
-            # fingerprint = kind of mismatch + whether a line with more than 32 apostrophe runs is involved
-            # (compute_path prunes to 32 states, styleanalyzer.py:102)
-            longq = any(len(re.findall(r"''+", ln)) > 32 for ln in d["raw"].split("\n"))
-            key = "quotes:line-with-more-than-32-quote-runs" if longq and v[0] in ("style", "dropped", "extra", "duplicated", "order") else v[0]
+            # candidates per kind of mismatch, documents with a line of more than 32 apostrophe runs kept apart
+            key = (v[0], _longq(d["raw"]))
             cur = bykind.get(key)
             if cur is None or len(d["raw"]) < len(cur[0]["raw"]):
                 bykind[key] = (dict(d, kind=v[0]), v[1])
         elif len(run.samples) < 4 and len(d["raw"]) < 260 and len(kinds) >= 2:
             run.sample({"raw": d["raw"], "lang": d["lang"], "denoted_leaves": [[w, [list(c) for c in ch], b, i] for w, ch, b, i in G.leaves(G.strip_p(G.denote(d["doc"])))][:12]})
     run.obligation("oracle-harness-complete", missing == 0, "%d documents without a result" % missing)
-    for kind in sorted(bykind):
-        case, detail = bykind[kind]
+    hits = {}
+    for key in sorted(bykind):
+        case, detail = bykind[key]
         if case["kind"] != "exception":
             doc, raw = shrink(src, case)
+            r = run_impl(src, [{"id": 0, "raw": raw, "lang": case["lang"]}]).get(0)
+            v = compare(doc, r["tree"]) if r and "tree" in r else None
+            if v:
+                detail = v[1]
         else:
             doc, raw = case["doc"], case["raw"]
-        run.hit("c02:" + kind, "parse tree differs from the denotation (%s): %s; document: %r" % (kind, detail, raw[:400]),
-                {"doc": doc, "raw": raw, "lang": case["lang"], "kind": case["kind"], "detail": detail})
+        # fingerprint = kind of mismatch + whether a line with more than 32 apostrophe runs is (still) involved in the MINIMISED
+        # document (compute_path prunes to 32 states, styleanalyzer.py:102)
+        kind = case["kind"]
+        fp = "quotes:line-with-more-than-32-quote-runs" if _longq(raw) and kind in ("style", "dropped", "extra", "duplicated", "order") else kind
+        if fp not in hits or len(raw) < len(hits[fp][1]):
+            hits[fp] = (doc, raw, case, detail)
+    for fp in sorted(hits):
+        doc, raw, case, detail = hits[fp]
+        kind = case["kind"]
+        run.hit("c02:" + fp, "parse tree differs from the denotation (%s): %s; document: %r" % (kind, detail, raw[:400]),
+                {"doc": doc, "raw": raw, "lang": case["lang"], "kind": kind, "detail": detail})
     run.coverage["exhaustive"] = False
     run.coverage["input_distribution"] = {"documents_containing_block_kind": dict(stats), "leaves_per_document": dict(sizes),
+                                          "documents_with_non_unique_leaf_family": dict(fams),
                                           "languages": 12}
 
 
